@@ -815,7 +815,7 @@ func main() {
 	l := newLoader()
 	what := flag.Args()
 	if len(what) == 0 {
-		what = []string{"map", "color", "romwin", "cputables", "asm", "header", "globals"}
+		what = []string{"map", "color", "romwin", "cputables", "asm", "header", "globals", "cpudiff"}
 	}
 	for _, w := range what {
 		switch w {
@@ -833,6 +833,8 @@ func main() {
 			genHeader(l)
 		case "globals":
 			genGlobals(l)
+		case "cpudiff":
+			genCpuDiff(l)
 		default:
 			die("unknown generator %q", w)
 		}
